@@ -94,8 +94,11 @@ ExpAny == [any |-> TRUE]
 \*   x = [rej |-> <<f1,..>>]   : o must be [exc |-> f] with f among the families
 \*   x = [anyof |-> <<x1,..>>] : o must match one of the plain alternatives
 \*   otherwise                 : o = x
+\* a refusal observed only AFTER octets had been packed (o.late) satisfies an expected refusal only where the expectation
+\* says so (x.late): "packing must fail" is not satisfied by a later decode error
 MatchPlain(x, o) == IF "rej" \in DOMAIN x
-                    THEN "exc" \in DOMAIN o /\ \E i \in DOMAIN x.rej : (x.rej[i] = o.exc \/ x.rej[i] = "*")
+                    THEN /\ "exc" \in DOMAIN o /\ \E i \in DOMAIN x.rej : (x.rej[i] = o.exc \/ x.rej[i] = "*")
+                         /\ ("late" \in DOMAIN o => "late" \in DOMAIN x)
                     ELSE x = o
 \*   x = [any |-> TRUE]        : unjudged - every outcome is acceptable
 \*   x = [okorrej |-> <<f1,..>>]: any object, or a refusal from the listed families
